@@ -157,19 +157,24 @@ func c09SharedBasic(dump string) (string, bool) {
 	return "", false
 }
 
-func c09One(model *Model, r *Result, src string) {
-	d := semCase(model, r, src, SemOpts{StopAt: -1, YieldBudget: 50000}, true, "")
+func c09One(model *Model, r *Result, src string) SemDiff {
+	return c09Events(model, r, src, nil, "")
+}
+
+func c09Events(model *Model, r *Result, src string, evs []SemEvent, tag string) SemDiff {
+	d := semCase(model, r, src, SemOpts{StopAt: -1, YieldBudget: 50000, Events: evs}, true, tag)
 	if d.Impl.ParseErr != "" {
 		r.Note("parse error in alias program: %s", d.Impl.ParseErr)
-		return
+		return d
 	}
 	for _, p := range d.Impl.Phases {
 		if where, shared := c09SharedBasic(p.Globals); shared {
 			r.Violate(Violation{Kind: "property", Key: "basic-cell-shared",
 				Detail: "two places hold the same num/string/bool cell (a basic value was not copied): " + where,
-				Input:  map[string]any{"program": src}, Impl: p.Globals})
+				Input:  map[string]any{"program": src, "events": evs}, Impl: p.Globals})
 		}
 	}
+	return d
 }
 
 func runC09(cfg Config, r *Result) {
@@ -178,9 +183,11 @@ func runC09(cfg Config, r *Result) {
 		return
 	}
 	defer model.Close()
-	r.Rule = "alias programs: a fixed pool of basic, array, map, nested and any variables and helper functions, then 4-13 random steps drawn from ~50 alias-creating / updating / observing statement shapes (assignment, declaration, element and field store/read, any boxing and assertion, argument passing, return values incl. err/errmsg, loop variables, slicing/concatenation/repetition followed by inner updates, failing and succeeding str2num/str2bool), final print of everything; plus random typed programs that use err/errmsg as expressions; plus loop-alias programs (1-3 for-range loops, some nested, over arrays of arrays / maps / any-boxed composites given as variable, slice, concatenation, repetition, literal, call result or any assertion, whose bodies store the loop variable in chosen iterations through ~20 store forms - assignment, declaration, append, element / map-value / any store, argument kept by the callee, return value, fresh copy - and update it in place, then updates through sinks and sources); compared on outcome, prints, yields and the cell-identity dump of all globals; oracle: no basic cell reachable twice; every case non-trivial; distinct = distinct program text"
+	r.Rule = "alias programs: a fixed pool of basic, array, map, nested and any variables and helper functions, then 4-13 random steps drawn from ~50 alias-creating / updating / observing statement shapes (assignment, declaration, element and field store/read, any boxing and assertion, argument passing, return values incl. err/errmsg, loop variables, slicing/concatenation/repetition followed by inner updates, failing and succeeding str2num/str2bool), final print of everything; plus random typed programs that use err/errmsg as expressions; plus loop-alias programs (1-3 for-range loops, some nested, over arrays of arrays / maps / any-boxed composites given as variable, slice, concatenation, repetition, literal, call result or any assertion, whose bodies store the loop variable in chosen iterations through ~20 store forms - assignment, declaration, append, element / map-value / any store, argument kept by the callee, return value, fresh copy - and update it in place, then updates through sinks and sources); plus repeated-site programs (one container type out of 11 - maps of num / string / bool / arrays / maps / any, arrays of num / string / maps / arrays / any; literal, slice, concatenation and repetition sites, some sharing parts with globals, placed in function bodies, for / while / nested loop bodies, a recursive function, argument position and event handlers, each evaluated 2-6 times; every instance kept; 2-4 rounds of one in-place update of one instance - del of first / middle / last / absent key, field and index stores of old and new keys, delete-and-reinsert, updates while ranging, nested stores, stores through any assertions - followed by print / sprint / range / len / has / == / element reads of the other instances and by further instances from the same sites; events delivered afterwards; own oracle: an instance that shares nothing prints the same before and after the update of another one); compared on outcome, prints, yields and the cell-identity dump of all globals; oracle: no basic cell reachable twice; every case non-trivial; distinct = distinct program text"
 	if in, ok := replayInput(cfg); ok {
-		c09One(model, r, in["program"].(string))
+		evs := c10ReplayEvents(in)
+		src := in["program"].(string)
+		c09FreshOracle(r, src, evs, c09Events(model, r, src, evs, ""))
 		return
 	}
 	n := cfg.N(1500, 40000)
@@ -203,6 +210,16 @@ func runC09(cfg Config, r *Result) {
 		c09One(model, r, src)
 		if i < 1 {
 			r.Sample(map[string]any{"program": src})
+		}
+	}
+	// container sites evaluated repeatedly: every instance is a container of its own
+	fs := cfg.N(300, 15000)
+	for i := 0; i < fs; i++ {
+		src, evs := c09FreshSites(cfg.Rng)
+		d := c09Events(model, r, src, evs, "sites:")
+		c09FreshOracle(r, src, evs, d)
+		if i < 1 {
+			r.Sample(map[string]any{"program": src, "events": evs})
 		}
 	}
 }
